@@ -161,8 +161,8 @@ const TEXTS: &[&str] = &["hello", " ", "a &amp; b", "x > y", "caf\u{e9} \u{1f918
 const TEXTS_LT: &[&str] = &["if 1 < 2 then", "x <- y", "a<<", "<", "2 <3 ", "p < q > r"];
 static ALLOW_LT: std::sync::atomic::AtomicBool = std::sync::atomic::AtomicBool::new(false);
 const COMMENTS: &[&str] = &[" c ", "</body>", "<p>", " a -- b ", ""];
-const RAWTEXTS: &[&str] = &["a </head> b", "x </body> y <p>", "</main></article>", "<b>bold</b> &amp; </html>", "plain"];
-const SCRIPTS: &[&str] = &["var a = 1;", "if (a < b) { x(); }", "document.write('</p><body>');", "<!-- x -->", "a<b"];
+const RAWTEXTS: &[&str] = &["a </head> b", "x </body> y <p>", "</main></article>", "<b>bold</b> &amp; </html>", "plain", ""];
+const SCRIPTS: &[&str] = &["var a = 1;", "if (a < b) { x(); }", "document.write('</p><body>');", "<!-- x -->", "a<b", ""];
 const FILLER_TAGS: &[&str] = &["span", "em", "section", "li", "P", "DIV2"];
 
 fn gen_filler(rng: &mut Rng, depth: usize) -> Node {
